@@ -24,7 +24,7 @@ W == [s \in AllScripts |->
           [] s = "groups" -> {"feedback", "tooldata"}
           [] s = "tifa_types" -> {"feedback", "tooldata", "builtin_modules"}
           [] OTHER -> {"feedback", "tooldata"}]
-AllSubs == {"ok", "crash", "mathmut", "syntax", "unused", "parts", "mathy", "attrassign", "attrlit", "methodcall", "pltassign", "pltcall", "uselen", "realmut", "modset", "modsetT", "modget", "branch_if", "branch_else", "greetA", "greetB"}
+AllSubs == {"ok", "crash", "mathmut", "syntax", "unused", "parts", "mathy", "attrassign", "attrlit", "methodcall", "pltassign", "pltcall", "uselen", "realmut", "modset", "modsetT", "modget", "branch_if", "branch_else", "greetA", "greetB", "turtleclear", "turtlestar"}
 \* submissions whose analysis writes / reads the method tables of TIFA's value types
 \* ... and submissions that write / read TIFA's types of the builtin MODULES (attribute assignment on an imported module)
 SW == [s \in AllSubs |-> IF s \in {"attrassign", "attrlit"} THEN {"type_tables"}
@@ -35,12 +35,15 @@ SW == [s \in AllSubs |-> IF s \in {"attrassign", "attrlit"} THEN {"type_tables"}
                           \* ... and one that imports a standard module nothing has loaded yet and changes its module-level state
                           ELSE IF s = "modset" THEN {"fresh_modules"}
                           \* ... and one whose second FILE is imported while the instructor calls a method of a returned object
-                          ELSE IF s = "greetA" THEN {"student_modules"} ELSE {}]
+                          ELSE IF s = "greetA" THEN {"student_modules"}
+                          \* ... and one that empties a list pedal's own mock of the turtle module handed out
+                          ELSE IF s = "turtleclear" THEN {"mock_tables"} ELSE {}]
 SR == [s \in AllSubs |-> IF s = "methodcall" THEN {"type_tables"}
                           ELSE IF s = "pltcall" THEN {"builtin_modules"}
                           ELSE IF s = "mathy" THEN {"builtin_modules", "real_modules"}
                           ELSE IF s = "modget" THEN {"fresh_modules", "real_modules"}
-                          ELSE IF s = "greetB" THEN {"student_modules"} ELSE {}]
+                          ELSE IF s = "greetB" THEN {"student_modules"}
+                          ELSE IF s = "turtlestar" THEN {"mock_tables"} ELSE {}]
 \* every grading resolves and renders feedback, so it reads everything that influences the result
 R == [s \in AllScripts |-> Slots \ {"class_hooks"}]
 \* Report.clear(): feedback lists, suppressions, hiddens, tool data (hence the sandbox instance with its mocks and
@@ -51,13 +54,14 @@ CodeClearResets == {"feedback", "suppressions", "hiddens", "hooks", "tooldata", 
                     "type_tables", "question_pools",
                     "fresh_modules",
                     "coverage_data",
-                    "vpl_maximum", "gradescope_maximum",
+                    "vpl_maximum", "gradescope_maximum", "mock_tables",
                     "student_modules"}    \* a student file is only ever a module inside the execution that imported it        \* setting up the VPL environment starts from the default maximum again     \* every execution ends by putting the module table back: what student code imported first is unloaded     \* every type VALUE copies its class' method table (Type.__init__), so nothing outlives the analysis
 PinnedClearResets == CodeClearResets \ {"pools", "question_pools"}
 SharedTables == CodeClearResets \ {"type_tables"}
 ModulesStay == CodeClearResets \ {"fresh_modules"}
 StudentModulesStay == CodeClearResets \ {"student_modules"}
 VplMaximumStays == CodeClearResets \ {"vpl_maximum"}
+MockTablesStay == CodeClearResets \ {"mock_tables"}     \* the mock hands out its own class-level table
 GsMaximumStays == CodeClearResets \ {"gradescope_maximum"}
 CoverageAccumulates == CodeClearResets \ {"coverage_data"}        \* one measurement object for the whole process
 =============================================================================
